@@ -140,8 +140,13 @@ type c16Session struct {
 	RestErr   string   `json:"rest_error,omitempty"`
 	Err       string   `json:"err,omitempty"`
 	errVal    error
-	PoolOK    bool   `json:"split_flag,omitempty"`
-	Extra     []bool `json:"next_after_end"`
+	PoolOK    bool `json:"split_flag,omitempty"`
+	// SplitAgain (mode split-via-pool): the caller overwrites the slice it got
+	// and calls Split on the same string once more.
+	SplitAgain bool     `json:"caller_overwrites_result_and_splits_again"`
+	Again      []string `json:"tokens_second_call,omitempty"`
+	AgainOK    bool     `json:"split_flag_second_call,omitempty"`
+	Extra      []bool   `json:"next_after_end"`
 	// EndComplete is Complete() right after Next first returned false.
 	EndComplete bool   `json:"complete_at_end"`
 	Panic       string `json:"panic,omitempty"`
@@ -172,7 +177,15 @@ func resetShellPools() {
 func execSession(sc *shell.Scanner, prev *simReader, s *c16Session) (*shell.Scanner, *simReader) {
 	if s.Mode == smPool {
 		toks, ok := shell.Split(s.Input)
-		s.Tokens, s.PoolOK = toks, ok
+		s.Tokens, s.PoolOK = append([]string(nil), toks...), ok
+		if s.SplitAgain {
+			// The result belongs to the caller: overwrite it, then ask again.
+			for i := range toks {
+				toks[i] = "overwritten by the caller"
+			}
+			again, ok2 := shell.Split(s.Input)
+			s.Again, s.AgainOK = append([]string{}, again...), ok2
+		}
 		return sc, prev
 	}
 	rd := s.reader
@@ -431,6 +444,12 @@ func checkSession(s *c16Session, st *Stats) *Violation {
 		if s.PoolOK != ref.Complete {
 			return &Violation{"complete-mismatch", fmt.Sprintf("%s: Split reported complete=%v, reference %v", desc, s.PoolOK, ref.Complete)}
 		}
+		if s.SplitAgain {
+			if !equalStrings(s.Again, want) || s.AgainOK != ref.Complete {
+				return &Violation{"token-mismatch", fmt.Sprintf("%s: after the caller overwrote the slice Split had returned, a second Split of the same string gave %q (complete=%v), reference %q", desc, s.Again, s.AgainOK, want)}
+			}
+			st.Inc("probe:split_again_after_overwriting_result", 1)
+		}
 		return nil
 	}
 	for i, c := range s.Completes {
@@ -532,6 +551,7 @@ func drawSession(ch chooser.Chooser, withErrors bool, st *Stats) *c16Session {
 	ntok := len(refTokenize(s.Input).Tokens)
 	s.K = ch.Draw(ntok+2, "k")
 	s.Fresh = ch.Draw(3, "fresh") == 0
+	s.SplitAgain = s.Mode == smPool && ch.Draw(3, "splitagain") == 2
 	s.SameReader = ch.Draw(2, "samereader") == 1
 	s.Plain = ch.Draw(5, "plain") == 4
 	s.RestSplit = -1
